@@ -118,9 +118,22 @@ class Prop(Check):
         "BaseTypes.C04_int",
         "BaseTypes.C04_float",
         "BaseTypes.C04_bool",
+        "BaseTypes.C04_int_only",
+        "BaseTypes.C04_number_line",
+        "BaseTypes.C04_number_line_unseparated_false",
+        "BaseTypes.C04_int_line",
+        "BaseTypes.C04_float_line",
+        "BaseTypes.C04_bool_line",
+        "BaseTypes.C04_number_text",
+        "BaseTypes.C04_number_line_text",
+        "BaseTypes.C04_float_text",
+        "BaseTypes.C04_line_checked",
+        "BaseTypes.C04_string_text",
+        "BaseTypes.C04_scanner_exact",
+        "BaseTypes.C04_strInt_kind",
     ]
     DRIVER = "Drivers/Re.lean"
-    PROCS_THOROUGH = 4
+    PROCS_THOROUGH = 3
     QUICK_CASES = 600
     THOROUGH_CASES = 30000
     RULE = ("tokens cases: a text of 1..4 literals of one base type (strings over {a,space,\",',\\,newline} exhaustively "
@@ -132,8 +145,13 @@ class Prop(Check):
     MODELLED = ("regenerated (tie T): the six base-type regexes of textx/lang.py (Python's re._parser -> Re.R) and the "
                 "default conversion lambdas of textx/metamodel.py (ast -> Gen.Procs); hand-modelled: the regex engine "
                 "(Re.m vs re.match, tie X op re), `v*=TYPE` + EOF with whitespace skipping (BaseTypes.tokens, tie X op "
-                "tokens); not exhibited: the numeric value computed by float() (int() is modelled: Py.intOf), Unicode "
-                "classification (a parameter; Python's own tables are sent with each case)")
+                "tokens); the literal forms the theorems quantify over are tied to what Python prints: the Lean scanners "
+                "intLit?/floatLit? (proved to be exactly the grammars IntLit.WF / FloatLit.WF asciiCC) classify every "
+                "generated literal (str(int), repr, %e, %E, %g, %f, .5, 5., 12e5), `lineHyp` (the decidable hypotheses of "
+                "C04_line_checked) is evaluated by the driver on every generated line and compared with the harness's "
+                "own hypothesis predicate, the values the theorem promises are compared with the implementation, and "
+                "Py.strInt is compared with str(int); not exhibited: the numeric value computed by float() (int() is "
+                "modelled: Py.intOf), Unicode classification (a parameter; Python's own tables are sent with each case)")
     ASSUMPTIONS = [
         "CPython: float(repr(x)) == x and float() accepts every literal the FLOAT regexes match",
         "sre: an empty loop iteration ends a loop (no loop body of the base-type regexes matches empty)",
@@ -393,7 +411,18 @@ class Prop(Check):
     def model_req(self, case, obs):
         k = case["k"]
         if k == "tokens":
-            return {"op": "tokens", "type": case["type"], "cc": cc_of(uncps(case["text"])), "text": case["text"]}
+            req = {"op": "tokens", "type": case["type"], "cc": cc_of(uncps(case["text"])), "text": case["text"]}
+            if case.get("items"):
+                # how the line was composed: Lean decides the hypotheses of C04_line_checked on it (`hyp`),
+                # classifies every literal (`kinds`) and says what the theorem promises (`want`)
+                seps = case.get("seps", [])
+                req["items"] = [[cps(seps[i] if i < len(seps) else " "), cps(item_text(it))]
+                                for i, it in enumerate(case["items"])]
+                req["tail"] = cps(case.get("tail", ""))
+                ints = [it["v"] for it in case["items"] if it["k"] == "int"]
+                if ints:
+                    req["ints"] = ints  # Py.strInt against Python's str(int)
+            return req
         if k == "re":
             allt = "".join(uncps(p) + uncps(t) for p, t in case["items"])
             return {"op": "match", "name": case["name"], "cc": cc_of(allt),
@@ -430,7 +459,7 @@ class Prop(Check):
                     return f"error position differs on {uncps(case['text'])!r}: implementation {obs['pos']}, model {mpos}"
             else:
                 return f"implementation failed otherwise than with a syntax error: {obs}"
-            return None
+            return self.compare_line(case, obs, out)
         if k == "re":
             if obs["lens"] != out["lens"]:
                 bad = [i for i, (a, b) in enumerate(zip(obs["lens"], out["lens"])) if a != b][0]
@@ -442,6 +471,41 @@ class Prop(Check):
             if not self._same_val(out["val"], obs["val"]):
                 return f"conversion {case['name']}({uncps(case['text'])!r}): implementation {obs['val']}, translated lambda {out['val']}"
             return None
+        return None
+
+    def compare_line(self, case, obs, out):
+        """the statement-level tie of the line theorems: hypotheses decided by Lean vs the generator's own
+        hypothesis predicate, literal forms written by Python vs the literal grammar of the theorems, the
+        values `C04_line_checked` promises vs the implementation, `Py.strInt` vs `str(int)`"""
+        if "hyp" not in out:
+            return None
+        text = uncps(case["text"])
+        items = case["items"]
+        if "strs" in out:
+            ints = [it["v"] for it in items if it["k"] == "int"]
+            got = [uncps(x) for x in out["strs"]]
+            if got != [str(int(v)) for v in ints]:
+                return f"str(int) differs: Python {[str(int(v)) for v in ints]}, Py.strInt {got}"
+        kinds = out["kinds"]
+        for it, kd in zip(items, kinds):
+            if it["k"] == "int":
+                want = 1
+            elif it["k"] == "float":
+                want = 2 if any(c in it["text"] for c in ".eE") else 1
+            else:
+                continue
+            if kd != want:
+                return (f"literal {it['text']!r} (written by Python for {it['v']}) is classified {kd} by the Lean scanner "
+                        f"(expected {want}): it is not of the literal form the C04 theorems quantify over")
+        hyp = self.hypothesis(case)
+        if bool(out["hyp"]) != hyp:
+            return (f"hypotheses of the line theorem on {text!r}: Lean decides {out['hyp']}, the harness's predicate says {hyp} "
+                    f"(items {[item_text(i) for i in items]}, seps {case.get('seps')}, tail {case.get('tail', '')!r})")
+        if hyp:
+            if not obs.get("ok"):
+                return f"C04_line_checked promises values on {text!r} but the implementation rejects it: {obs}"
+            if len(out["want"]) != len(obs["vals"]) or not all(self._same_val(m, i) for m, i in zip(out["want"], obs["vals"])):
+                return f"C04_line_checked promises {out['want']} on {text!r}, implementation yields {obs['vals']}"
         return None
 
     # ------------------------------------------------------------------ direct oracle
@@ -553,6 +617,11 @@ class Prop(Check):
             if self.hypothesis(c):
                 hyp += 1
         ex = sum(1 for c in cases if c.get("origin") == "exhaustive")
+        outs = [o for o in (outs or []) if isinstance(o, dict)]
         return {"distribution": kinds, "tokens_cases_under_hypothesis": hyp,
+                "lines_whose_hypotheses_lean_decided_true": sum(1 for o in outs if o.get("hyp") is True),
+                "lines_whose_hypotheses_lean_decided_false": sum(1 for o in outs if o.get("hyp") is False),
+                "literals_classified_by_lean_scanner": sum(len(o.get("kinds", [])) for o in outs),
+                "ints_compared_with_strInt": sum(len(o.get("strs", [])) for o in outs),
                 "exhaustive": {"strings_over_6_char_alphabet_cases": ex},
                 "regex_texts_compared": sum(len(c["items"]) for c in cases if c["k"] == "re")}
